@@ -26,6 +26,34 @@ CHECKS = {
          "For all 24 (limit, window) configurations, six arrival patterns and 1-64 callers every Allow() call is bracketed by monotonic clock reads and judged with interval arithmetic: only certain over-admission (limit+1 admitted calls certainly inside one window) and certain starvation (a rejection with fewer than limit possibly-preceding admissions under the widest reading of 'window') are reported; ~98% of decisions were certain. Boundary effects smaller than the call intervals are undecidable by construction. Schedules are sampled.",
          "Trusts CLOCK_MONOTONIC to be consistent across CPUs within 2 us, the race detector, lib/drv for the endpoint sub-check.",
          "DESIGN.md §4 C19"),
+ "C08": ("fault_enumeration", "runtime monitor: lossy UDP relay + faulty TCP proxy between the real client and the real server, bounded-eventually oracle on snapshot, sync bitfield and wire bytes",
+         "Every sampled fault scenario (per-datagram drop/deliver/duplicate/delay/reorder, per-connection sync failures refuse/reset/short/garble, decoy servers, rotation, server restart) and, in thorough, exhaustively all 4096 original-loss x retransmission-loss patterns for 6 slots, must end after one completed fault-free round with a server record for every in-window, in-range slot the client's history holds, byte-identical datagrams per slot as seen on the wire, and no banned slot. 'Eventually' is decided in this bounded form only; readings beyond 32 signed bits and conflicting rows are out of scope (C09).",
+         "Trusts the harness relay/proxy accounting, the refenc reply parser, history.dat read by layout, the server snapshot accessor; loopback UDP loss makes a scenario inconclusive, never violated.",
+         "DESIGN.md §4 C08"),
+ "C10": ("exploration", "runtime monitor: independent reply parser vs server snapshot on real TCP replies; relay that rewrites replies into the real client parser; state/file diff around full sync rounds",
+         "For each generated server state (window-edge and banned slots, offsets 0/2016/4032 by real rotations, 0..6 GCA-signed servers, optional migration order with 0..4 servers) the reply bytes are parsed by an independent decoder and compared bit-exactly with the server snapshot and the posted data, and the real client parser must return the same parse; unknown/banned ids must get the one-byte refusal. Every rewritten reply (bit flips, truncations, extensions, foreign re-signings, and altered content validly re-signed with the contacted server's own key incl. timestamps at 24h +- 10min) is judged by rules written from the property text; sampled classes also run a full round with client state and files compared. Exhaustive bit flips only in thorough for replies <= 2000 bytes; the 24 h bound is decided only outside +-10 min.",
+         "Trusts go-ethereum secp256k1/Keccak, the verif snapshot and VerifServerSync wrapper, gated background jobs, the parked client report loop.",
+         "DESIGN.md §4 C10"),
+ "C11": ("fault_enumeration", "runtime monitor: rogue sync servers holding real keys, enumeration of per-attempt outcomes, validly re-signed reply mutations, goroutine-snapshot lock probe, block coverage of the client's locking code",
+         "All 3905 outcome assignments {refused, reset, short read, bad signature, success} for 1..5 servers plus all-banned configurations (thorough; 200 sampled in quick) and ~24000 reply byte strings (750 quick) including validly re-signed malformed replies must never crash the client, never leave its mutex held after a round, never stop report emission or later sync attempts (tick-bounded), never produce a dial to a server the client has been told is banned, and never lose a ban in memory, on disk or across restart. Lock-path claims hold for the executed blocks (67 of 77; the rest are listed error paths). Servers that hold a connection open forever are not covered.",
+         "Trusts the rogue's dial accounting by request id, the Go runtime's goroutine dump as holder-existence evidence, refenc map/reply parsers, go tool covdata.",
+         "DESIGN.md §4 C11"),
+ "C12": ("exploration", "runtime monitor: process-death / handler-panic witness + per-input liveness triple + lock probe + goroutine-dump-judged shutdown over generated datagram/TCP/HTTP inputs x clock values x peer faults; race and asan child variants",
+         "Every generated input is delivered to the real server in child processes: C01 datagram classes plus window-edge reports at every now-offset in 3568..4032 and beyond two windows, the same during start-up catch-up (hook migrate.catchup), sync requests of all length/id/idle classes, the route x method x query x body matrix incl. GCA-signed extremes and unserializable values, authorizations with peers down/resetting/garbling, shutdown with held connections. Held = no process death, no 'http: panic serving', no AddressSanitizer report (thorough), the liveness triple answered after every input, both mutexes free at quiescence, every Close() returned. A blocked shutdown is a violation only for the idle-sync-reader pattern seen in two goroutine dumps. Sampled input space.",
+         "Trusts the verif hooks, the refenc sync parser, Go's goroutine dump. Never executed: the weekly WattTime job (no-op in test builds), geo-stats past its external fetch, peers that accept and never answer.",
+         "DESIGN.md §4 C12"),
+ "C15": ("exploration", "differential runtime check: real encoders/decoders/Sign/Verify and real JSON endpoints vs independent reference encodings and go-ethereum; generated and boundary values, all-bit-flip Verify sweeps",
+         "Every generated value of the seven structures is encoded, decoded and reduced to signing bytes by the repository's functions and compared byte-exactly with encodings written from the documented layouts; wrong lengths, single-field perturbations and cross-type collisions are judged on the actual bytes. Sign is compared with go-ethereum's deterministic signature, twice in-process and across two processes; every bit of signing bytes, signature and key is flipped for a sample of messages. Authorizations travel through the real POST/GET endpoints, the server's own forwarding to a peer, the file and a restart, bit-exact for all finite float classes. The value space is sampled.",
+         "Trusts lib/refenc (DESIGN Appendix A), go-ethereum crypto, Go's strconv/encoding/json. The stats decoder is never fed a garbage device count (out of domain, DESIGN §6).",
+         "DESIGN.md §4 C15"),
+ "C17": ("exploration", "runtime monitor: per-post list differ against GCA-signature rules on a real server; set-valued merge/migration model over sync rounds of a real client fed by a harness-held trusted server; state-vs-files and restart equality",
+         "Generated post sequences (new, changed duplicate, re-signed, ban, second ban, three un-ban forms, eight bad-signature forms, pre-registration) are observed through GET and the snapshot after every post; generated reply sequences (lists, duplicates inside a list, bad entries, unauthentic replies, migration orders valid/outer-invalid/inner-wrong/other-device/to-current-GCA with 0..4 servers) drive a real client whose state accessor and three files must agree with each other and with the allowed-state model, also across restarts. The order of 'write files' and 'adopt' is not observable without crashes and is not claimed.",
+         "Trusts go-ethereum crypto, VerifState/VerifSyncOnce, the parked report loop, unreachable locations by construction.",
+         "DESIGN.md §4 C17"),
+ "C20": ("exploration", "production-tag probe binary (exhaustive conversion sweep, constants, clock bracketing) + behavioural measurement of window constants on the real server with gated jobs + integer-rule oracle at uint32 extremes",
+         "A binary built WITHOUT the test tag runs the production genesis, CurrentTimeslot and conversion code: every unix time in [G, G+2^32-1] (thorough: exhaustive; quick: boundary and stride sweep) is compared with integer arithmetic on the documented genesis, pre-genesis times must be refused, production constants are exported. On the test build half-width, window, rotation trigger and start-up threshold are measured from accept/rotate behaviour and every probe, incl. offsets near 2^32 reached by a pre-seeded signed record, must equal |slot-now| <= 432 and offset <= slot < offset+4032 over the integers. The parent checks trigger + ceil(production period/300 s) + half-width < window.",
+         "Behavioural numbers come from the test-tag build (same arithmetic source files, different clock/constants files); a gated loop iteration is assumed equal to an ungated one; high offsets are reached through trusted disk state; trusts verif accessors.",
+         "DESIGN.md §4 C20"),
 }
 NOT_YET = "check not built yet in this round (planned, see DESIGN.md §4); not claimed until it exists and is silent on the unchanged tree"
 
